@@ -2,6 +2,9 @@
 // Use of this source code is governed by an MIT
 // licence that can be found in the LICENCE file.
 
+use std::io;
+use std::io::Write;
+
 use snafu::ResultExt;
 
 use crate::eval::error::AssertArgsFailed;
@@ -26,7 +29,11 @@ pub fn print(this: Option<SourcedValue>, args: Vec<SourcedValue>)
 
     let s = render(&args[0])?;
 
-    println!("{s}");
+    if let Err(e) = writeln!(io::stdout(), "{s}") {
+        return Err(Error::BuiltinFuncErr{msg: format!(
+            "couldn't write to stdout: {e}",
+        )});
+    }
 
     Ok(value::new_null())
 }
